@@ -40,9 +40,22 @@ def _add_latency(w, loop, lat: dict):
             orig_deliver(q.popleft())
 
     def deliver(data):
-        if data:
-            q.append(bytes(data))
-            loop.call_later(lat['v'], pump)
+        if not data:
+            return
+        data = bytes(data)
+        split = lat.get('split')
+        if split and len(data) <= 12:
+            # hand-shake bytes of a file connection (4-byte ticket, 8-byte offset): TCP may deliver them in pieces
+            cuts = [1] * len(data) if split['mode'] == 'bytes' else [1, len(data) - 1] if split['mode'] == 'first' \
+                else [len(data) - 1, 1]
+            pos = 0
+            for i, c in enumerate(x for x in cuts if x > 0):
+                q.append(data[pos:pos + c])
+                pos += c
+                loop.call_later(lat['v'] + i * split['gap'], pump)
+            return
+        q.append(data)
+        loop.call_later(lat['v'], pump)
 
     def flush():
         while q:
@@ -168,6 +181,8 @@ async def _pair_main(loop, case: dict, tmp: str):
                             lat['v'] = case.get('lat_p', LATENCY)
                         if typ == 'F':
                             lat['v'] = case.get('lat_f', LATENCY)
+                            if case.get('hs_split'):
+                                lat['split'] = {'mode': case['hs_split'], 'gap': case.get('hs_gap', 0.001)}
                             a_writer.reset = half_visible_reset
                             idx = state['fconn']
                             state['fconn'] += 1
@@ -298,6 +313,9 @@ def gen_cases(rng: random.Random, n: int) -> list:
                   'lim_up': lim[0], 'lim_down': lim[1], 'gen': 'pair',
                   # delivery orders of the control messages vs. the file connection
                   'lat_p': rng.choice([0.005, 0.02, 0.02, 0.5, 3.0]), 'lat_f': rng.choice([0.005, 0.02, 0.02, 0.5]),
-                  'rst_delay': rng.choice([0.0, 0.0, 0.01, 1.0, 10.0, 30.0, 400.0])})
+                  'rst_delay': rng.choice([0.0, 0.0, 0.01, 1.0, 10.0, 30.0, 400.0]),
+                  # how ticket / offset arrive on the file connection: whole, byte-wise, 1+rest, rest+1
+                  'hs_split': rng.choice([None, None, 'bytes', 'bytes', 'first', 'last']),
+                  'hs_gap': rng.choice([0.0, 0.001, 0.05, 0.3])})
         out.append(c)
     return out
